@@ -108,3 +108,30 @@ void h_bin(void) { mkbuf(); struct out o; o.line = o.col = 0; o.ival = 0; o.dval
       if (len) VF_ASSERT(o.soff == (s64)(pos + 4), "string bytes start right after the length field"); }
   }
   VF_WITNESS(); }
+
+/* ---- header: the ten header lines in their full form, every count a symbolic decimal digit at a fixed position (concrete skeleton keeps
+ * the cursor concrete); each NLHeader field must be the digit the NL format puts at that place ---- */
+/* optional fields (ranges, eqns, logical cons; the four complementarity counts; nl vars in both; arithmetic kind, flags) carry concrete
+ * distinct digits: a symbolic character there would make "is the optional number present" a symbolic decision and with it the cursor */
+static const char HSKEL[] = "g3 1 1 0\n # # # 4 5 6\n # # 1 2 3 4\n # #\n # # 7\n # # 1 5\n # # # # #\n # #\n # #\n # # # # #\n";
+void h_header(void) {
+  u32 L = sizeof HSKEL - 1; char *blk = vf_malloc(L + 1); u32 dv[40]; u32 nd = 0;
+  for (u32 i = 0; i < sizeof HSKEL; i++) { char c = HSKEL[i];
+    if (c == '#') { u32 d = (u32)vf_ndrange(0, 9); dv[nd++] = d; blk[i] = (char)('0' + d); } else { blk[i] = c; if (i > 8 && c >= '0' && c <= '9') dv[nd++] = (u32)(c - '0'); } }
+  s64 out[48]; for (u32 i = 0; i < 48; i++) out[i] = -777;
+  u32 rc = w_read_header(blk, L, (char *)out);
+  VF_OBS(rc);
+  VF_ASSERT(rc == 0, "a well-formed header is accepted");
+  if (rc != 0) return;
+  VF_ASSERT(out[0] == 0 && out[1] == 3 && out[2] == 1 && out[3] == 1 && out[4] == 0, "format and AMPL options");
+  /* expected field values in NL header order; position 13 (num_compl_conds) is reported as the sum with num_nl_compl_conds */
+  u32 k = 0;
+  for (u32 f = 5; f < 40; f++) { s64 expect = dv[k];
+    if (f == 13) expect = dv[k] + dv[k + 1];
+    VF_OBS(out[f]);
+    VF_ASSERT(out[f] == expect, "header field differs from the number at its place in the header line");
+    k++; }
+  VF_ASSERT(k == nd, "all header numbers consumed");
+  VF_ASSERT(out[40] == (s64)L, "cursor at the end of the header");
+  VF_WITNESS();
+}
